@@ -230,6 +230,12 @@ func Dump(db *sql.DB) (*Catalog, error) {
 			}
 			fk, ok := fks[id]
 			if !ok {
+				// the parent's name as the catalog spells it (the clause may use another letter case)
+				for _, o := range ms {
+					if o.Type == "table" && strings.EqualFold(o.Name, tbl) {
+						tbl = o.Name
+					}
+				}
 				fk = &CFK{RefTable: tbl, OnUpdate: onUpd, OnDelete: onDel}
 				fks[id] = fk
 				ids = append(ids, id)
